@@ -30,18 +30,19 @@ const verifLlamaPre = `(?i:'s|'t|'re|'ve|'m|'ll|'d)|[^\r\n\p{L}\p{N}]?\p{L}+|\p{
 // ---------------------------------------------------------------------------------- vocabularies
 
 type verifTok struct {
-	name     string
-	family   string // "bpe" | "spm"
-	tp       TextProcessor
-	bpe      *BytePairEncoding
-	vocab    *Vocabulary
-	maxRunes int  // longest vocabulary entry, in runes
-	pre      string // BPE: pre-tokenizer pattern
-	pool     []string        // random vocabularies: strings the texts are built from
-	specials []string        // SpecialVocabulary() of the TEMPLATE object, taken before any Encode call (pristine)
-	template bool            // templates are never used for Encode/Decode: every history runs on a clone
-	byteIDs  map[int32]uint32 // SPM: id of a byte token -> its token type
-	covering bool // every (remapped) byte is a token
+	name        string
+	family      string // "bpe" | "spm"
+	tp          TextProcessor
+	bpe         *BytePairEncoding
+	vocab       *Vocabulary
+	maxRunes    int              // longest vocabulary entry, in runes
+	pre         string           // BPE: pre-tokenizer pattern
+	pool        []string         // random vocabularies: strings the texts are built from
+	specials    []string         // SpecialVocabulary() of the TEMPLATE object, taken before any Encode call (pristine)
+	refSpecials []string         // what the special list SHOULD be (non-empty turn markers and CONTROL-typed values), computed from Values / Types by the driver
+	template    bool             // templates are never used for Encode/Decode: every history runs on a clone
+	byteIDs     map[int32]uint32 // SPM: id of a byte token -> its token type
+	covering    bool             // every (remapped) byte is a token
 }
 
 // verifLlamaVocab loads model/testdata/llama3.2 and appends llama 3's first eleven special tokens.
@@ -185,7 +186,7 @@ func TestVerifC20Table(t *testing.T) {
 	sv := (&Vocabulary{Values: []string{"a", "", "b"}, Types: []uint32{TOKEN_TYPE_NORMAL, TOKEN_TYPE_CONTROL, TOKEN_TYPE_NORMAL}}).SpecialVocabulary()
 	fmt.Fprintf(f, "emptyspecial specialvocab %s\n", map[bool]string{true: "returned", false: "skipped"}[slices.Contains(sv, "")])
 	for _, fam := range []string{"bpe", "spm"} {
-		fmt.Fprintf(f, "emptyspecial %s %s\n", fam, strings.Fields(verifRunChild(fam+" 0 "+zzverif.Hex([]byte("ab"))))[0])
+		fmt.Fprintf(f, "emptyspecial %s %s\n", fam, strings.Fields(verifRunChild(fam + " 0 " + zzverif.Hex([]byte("ab"))))[0])
 	}
 }
 
@@ -476,10 +477,10 @@ func verifSynthBPE(enc [256]int, drop []byte) *Vocabulary {
 }
 
 var verifSPMPieces = []string{"▁", "e", "t", "a", "o", "n", "i", "s", "r", "h", "l", "d", "u", "c", "m", "▁t", "he", "▁the", "in", "▁a", "er", "an",
-		"▁▁", "▁▁▁▁", "th", "the", "re", "on", "▁s", "▁w", "ing", "▁in", "at", "en", "nd", "▁and", "1", "2", "3", "12", "123", "0", "00",
-		"你", "好", "你好", "世", "界", "世界", "日本", "日", "本", "語", "م", "ر", "ح", "ب", "ا", "مر", "مرحبا", "é", "è", "ü", "ñ", "́", "é",
-		"👍", "👨", "‍", "👩", "👨‍👩", "❤", "️", "❤️", ".", ",", "!", "?", "..", "...", "\n", "\n\n", "\t", "aa", "aaa", "aaaa", "ab", "ba", "aba",
-		"x", "y", "xy", "yx", "xyx", "w", "wo", "wor", "world", "▁world", "hel", "hello", "▁hello", "lo", "ll", "<", ">", "0x", "<0", "<0x"}
+	"▁▁", "▁▁▁▁", "th", "the", "re", "on", "▁s", "▁w", "ing", "▁in", "at", "en", "nd", "▁and", "1", "2", "3", "12", "123", "0", "00",
+	"你", "好", "你好", "世", "界", "世界", "日本", "日", "本", "語", "م", "ر", "ح", "ب", "ا", "مر", "مرحبا", "é", "è", "ü", "ñ", "́", "é",
+	"👍", "👨", "‍", "👩", "👨‍👩", "❤", "️", "❤️", ".", ",", "!", "?", "..", "...", "\n", "\n\n", "\t", "aa", "aaa", "aaaa", "ab", "ba", "aba",
+	"x", "y", "xy", "yx", "xyx", "w", "wo", "wor", "world", "▁world", "hel", "hello", "▁hello", "lo", "ll", "<", ">", "0x", "<0", "<0x"}
 
 // verifSynthSPM: a sentencepiece-style vocabulary laid out like gemma 3 (ids 105/106 = turn markers).
 func verifSynthSPM() *Vocabulary {
@@ -969,6 +970,12 @@ func (tk *verifTok) clone(share bool) *verifTok {
 // finish a template: snapshot its special vocabulary (the template itself never encodes anything)
 func (tk *verifTok) asTemplate() *verifTok {
 	tk.specials = append([]string(nil), tk.vocab.SpecialVocabulary()...)
+	tk.refSpecials = nil
+	for i, s := range tk.vocab.Values {
+		if s != "" && (s == "<start_of_turn>" || s == "<end_of_turn>" || (i < len(tk.vocab.Types) && tk.vocab.Types[i] == TOKEN_TYPE_CONTROL)) {
+			tk.refSpecials = append(tk.refSpecials, s)
+		}
+	}
 	tk.template = true
 	return tk
 }
@@ -1183,8 +1190,10 @@ func (tk *verifTok) diffClass(text, dec string) string {
 		// unmapping like any other token.  The expected output is computed here from the REGENERATED rune->byte table
 		// (verifDecTable; byte(r) beyond it), not by asking the code under test; an ASCII special token that does not
 		// decode to itself, or any other image, is a different (new) failure.
+		// Only tokens that ARE special by the reference rule count (a regression of F2b, which made ids 105/106 special for
+		// every vocabulary, must not be filed under this finding).
 		x, n, ascii := "", 0, 0
-		for _, f := range verifFragments(tk.specials, text) {
+		for _, f := range verifFragments(tk.refSpecials, text) {
 			if !f.sp {
 				x += f.v
 				continue
@@ -1935,7 +1944,7 @@ func verifLongTexts(thorough bool) []string {
 			prefix := strings.Repeat("x", p)
 			out = append(out, rep(prefix, ch, 65536+8))
 			if ch == "你" {
-				out = append(out, rep(prefix, "你好吗 ", 65536+20))                         // short pieces
+				out = append(out, rep(prefix, "你好吗 ", 65536+20))                       // short pieces
 				out = append(out, rep(prefix, ch, 30000)+"\n"+rep("", ch, 65536+3000)) // a line break before the cut
 			}
 		}
